@@ -138,7 +138,8 @@ def worker(prop, tier, base_seed, wid, nworkers, budget_s, max_runs, out_path):
             sig = v["signature"]
             agg["sig_counts"][sig] = agg["sig_counts"].get(sig, 0) + 1
             if sum(1 for x in agg["violations"] if x["violation"]["signature"] == sig) < 2:
-                agg["violations"].append({"seed": seed, "case": case, "violation": v, "trace": res["trace"], "digest": res["digest"]})
+                agg["violations"].append({"seed": seed, "case": case, "violation": v, "trace": res["trace"], "digest": res["digest"],
+                                          "prelude": {"base_seed": base_seed, "tier": tier, "first": wid, "stride": nworkers, "upto": idx}})
         if len(agg["samples"]) < 2 and res.get("sample") is not None:
             agg["samples"].append({"seed": seed, "case": case, "outcome": res["sample"]})
         idx += nworkers
@@ -240,6 +241,19 @@ def replay_file_run(path):
     with open(path) as f:
         rp = json.load(f)
     scn = load_scenario(rp["property"])
+    pre = rp.get("prelude")
+    if pre:
+        # the violation depends on state the code under test keeps across runs inside one process (a module- or class-level
+        # cache): re-run, unjudged, exactly the runs its worker had executed before it
+        import logging
+
+        logging.disable(logging.CRITICAL)
+        for idx in range(pre["first"], pre["upto"], pre["stride"]):
+            seed = run_seed(pre["base_seed"], idx)
+            case = scn.gen_case(seed, pre["tier"], idx)
+            if case is None:
+                break
+            execute(scn, case, seed)
     res = execute(scn, rp["case"], rp["sched_seed"], rp.get("trace"))
     return rp, res
 
@@ -248,12 +262,12 @@ def same_violation(res, signature):
     return any(v["signature"] == signature for v in res["violations"])
 
 
-def _run_in_child(prop, case, sched_seed, trace, timeout=120, hashseed="0"):
+def _run_in_child(prop, case, sched_seed, trace, timeout=120, hashseed="0", prelude=None):
     """Run one case in a fresh interpreter; returns result dict or None on failure."""
     sb = scratch_base()
     p = os.path.join(sb, f"one-{os.getpid()}-{time.time_ns()}.json")
     with open(p, "w") as f:
-        json.dump({"property": prop, "case": case, "sched_seed": sched_seed, "trace": trace}, f)
+        json.dump({"property": prop, "case": case, "sched_seed": sched_seed, "trace": trace, "prelude": prelude}, f)
     env = dict(os.environ, PYTHONHASHSEED=hashseed, WDSIM_CHILD="1")
     try:
         out = subprocess.run([sys.executable, os.path.join(VERIF, "check"), prop, "--replay", p, "--json"], capture_output=True, text=True, timeout=timeout, env=env)
@@ -361,12 +375,15 @@ def minimise(scn, item, budget_s=120):
     return case, seed, trace, tried
 
 
-def write_replay(prop, case, seed, trace, violation, digest=None):
+def write_replay(prop, case, seed, trace, violation, digest=None, prelude=None):
     d = os.environ.get("WDSIM_REPLAY_DIR") or os.path.join(VERIF, "replays")
     os.makedirs(d, exist_ok=True)
     path = os.path.join(d, f"{prop}-{seed}.json")
     with open(path, "w") as f:
-        json.dump({"property": prop, "violation": violation, "sched_seed": seed, "case": case, "trace": trace, "digest": digest}, f, indent=1, default=repr)
+        rp = {"property": prop, "violation": violation, "sched_seed": seed, "case": case, "trace": trace, "digest": digest}
+        if prelude:
+            rp["prelude"] = prelude
+        json.dump(rp, f, indent=1, default=repr)
     return path
 
 
@@ -439,6 +456,8 @@ def check(prop, tier, base_seed, budget_s=None, max_runs=None):
     for it in m["violations"]:
         by_sig.setdefault(it["violation"]["signature"], []).append(it)
     n_new = 0
+    n_unrepro = 0
+    cross_run_state = False
     for sig in sorted(by_sig):
         items = sorted(by_sig[sig], key=lambda it: len(json.dumps(it["case"])))
         if sig in known:
@@ -446,6 +465,7 @@ def check(prop, tier, base_seed, budget_s=None, max_runs=None):
             continue
         n_new += 1
         it = items[0]
+        prelude, note = None, ""
         try:
             # full minimisation budget for the first three new signatures, a short one for the rest
             case, seed, trace, tried = minimise(scn, it, budget_s=scn.budget.get("minimise", 60) if n_new <= 3 else 8)
@@ -460,11 +480,26 @@ def check(prop, tier, base_seed, budget_s=None, max_runs=None):
             if res2 is not None and same_violation(res2, sig):
                 case, seed, trace, res = it["case"], it["seed"], None, res2
             else:
-                print(f"HARNESS-ERROR property={prop} violation {sig} seed={it['seed']} did not reproduce in a fresh process")
-                exit_code = max(exit_code, 2)
-                continue
-        path = write_replay(prop, case, seed, trace, it["violation"], res.get("digest"))
-        print(f"VIOLATION property={prop} replay={path}")
+                # last resort: the run together with everything its worker had run before it in the same process
+                res3 = None
+                if cross_run_state:
+                    # one violation of this batch is already shown to depend on state kept across runs: the others that do not
+                    # replay alone are listed, not replayed one by one (each replay costs a whole worker's history)
+                    print(f"UNCONFIRMED property={prop} signature={sig} seed={it['seed']} not replayed (cross-run state, see the VIOLATION above)")
+                    continue
+                if it.get("prelude") and n_unrepro < 2:
+                    n_unrepro += 1
+                    res3 = _run_in_child(prop, it["case"], it["seed"], it["trace"], timeout=max(300, int(wall) * 3), hashseed="12345", prelude=it["prelude"])
+                if res3 is not None and same_violation(res3, sig):
+                    case, seed, trace, res, prelude = it["case"], it["seed"], it["trace"], res3, it["prelude"]
+                    cross_run_state = True
+                    note = " [depends on state the code under test keeps across runs in one process; the replay file re-runs the preceding runs of its worker]"
+                else:
+                    print(f"HARNESS-ERROR property={prop} violation {sig} seed={it['seed']} did not reproduce in a fresh process")
+                    exit_code = max(exit_code, 2)
+                    continue
+        path = write_replay(prop, case, seed, trace, it["violation"], res.get("digest"), prelude=prelude)
+        print(f"VIOLATION property={prop} replay={path}{note}")
         print(f"  signature={sig} message={it['violation'].get('message', '')[:600]}")
         exit_code = 1
     write_evidence(prop, tier, base_seed, scn, m, wall, n_new)
